@@ -701,6 +701,20 @@ func run(s Sess, afterOpen func()) mon.Result {
 				}
 			}
 		}
+		// flavours: levels that share one prompt; only the device's own mode tells them apart
+		if ff, tf := s.Levels[from].Flavour, s.Levels[target].Flavour; ff != "" || tf != "" {
+			switch {
+			case ff != "" && ff == tf && from != target:
+				obs["ops_between_flavours_sharing_one_prompt"]++
+				nontrivial = true
+			case ff != "" && from == target:
+				obs["ops_staying_in_a_flavour"]++
+			case tf != "":
+				obs["ops_into_a_flavour"]++
+			default:
+				obs["ops_out_of_a_flavour"]++
+			}
+		}
 		tag("path=up%d-down%d", len(up), len(down))
 		if asked > 0 {
 			tag("auth-steps=%d", asked)
@@ -713,6 +727,9 @@ func run(s Sess, afterOpen func()) mon.Result {
 			return mon.Result{Verdict: mon.Violated, Key: "c04/harness:tour-incomplete", Detail: fmt.Sprintf("%d of %d ordered pairs observed", len(pairs), n*n)}
 		}
 		obs["trees_with_all_pairs"] = 1
+	}
+	if s.Kind == "flavours" {
+		obs["flavour_sessions"]++
 	}
 	tag("kind=%s", s.Kind)
 	tag("variant=%s", s.Variant)
@@ -799,11 +816,14 @@ func init() {
 			"(the level's own de-escalate, a child's escalate on a non-asking edge), so the device legitimately changes mode behind the cached level; the reference tracks the true mode through payload lines; " +
 			"the following call targets the level the driver still believes in with probability 0.6. Same-labels-different-shape family (30 quick / 300 thorough): 2-3 driver objects in ONE process over level sets with identical names and patterns but different trees " +
 			"(re-parented leaf, swapped labels, chain vs star), each with its own device, run one after the other or alive at the same time, each judged against its own tree; and (20 / 200) single sessions that re-parent a level " +
-			"(device and driver level definition) and call UpdatePrivileges mid-session. Non-trivial = a call whose path differs from the path between the same labels in the other tree, or a judged call after a payload-induced move, or a call whose tree path has >=2 steps, or that crosses an edge on which the device asked for the secret, or a hop whose reaction was really held back, or a SendCommand(s) call (the operations that consult the cached level) " +
+			"(device and driver level definition) and call UpdatePrivileges mid-session. Flavour family (40 / 400): trees with 2-3 sibling leaf levels that share one prompt and pattern (different escalate commands, each de-escalating to the common parent) and sequences " +
+			"that keep moving between them through AcquirePriv / SendConfig(s) default and WithPrivilegeLevel / SendInteractive / SendCommand(s); the device's own mode decides. " +
+			"Non-trivial = a call that moves between two flavours with the same prompt, or a call whose path differs from the path between the same labels in the other tree, or a judged call after a payload-induced move, or a call whose tree path has >=2 steps, or that crosses an edge on which the device asked for the secret, or a hop whose reaction was really held back, or a SendCommand(s) call (the operations that consult the cached level) " +
 			"issued while the cached level differs from the device's mode. Distinct = distinct descriptor hash.",
 		Assumptions: []string{
 			"the device is the causal devsim.CLI model: echo, newline, output, prompt; a transition command is honoured only in the mode it belongs to, anything else prints an error line and changes nothing; workload commands never change the mode",
-			"every level's prompt is attributed to exactly that level by the configured patterns minus not-contains (checked by brute force with the session's own regexps; candidates resampled), the password prompt matches no level pattern and no level prompt matches the password pattern",
+			"flavour family (levels sharing one prompt): the prompt cannot tell the flavours apart, so only situations in which the property's wording determines the outcome are generated: flavours are leaves (no path passes through one with the cached level unknown), the device never starts in a flavour, no failed hops and no mode-changing payloads in these sessions; hence whenever the device sits in a flavour the driver has last confirmed exactly that flavour. What the library does from a flavour with an unknown/empty cached level (it guesses: target if it fits, else the first candidate) is outside the generated space",
+			"every level's prompt is attributed to exactly that level (or, in the flavour family, to exactly its flavour group) by the configured patterns minus not-contains (checked by brute force with the session's own regexps; candidates resampled), the password prompt matches no level pattern and no level prompt matches the password pattern",
 			"no device output has a prefix whose last line is accepted by the joined prompt pattern (brute force); outputs never contain the prompt terminators",
 			"every command ends in a byte that occurs nowhere else in the command, the prompts, the outputs or the secret (fuzzy echo matching)",
 			"the correct secondary secret is configured whenever some edge asks for it; search depth > longest prompt + longest output line",
